@@ -5,6 +5,7 @@ import (
 	"errors"
 	"fmt"
 	"math/rand"
+	"slices"
 	"strings"
 	"time"
 
@@ -478,7 +479,13 @@ func (d *dealer) syncRegister(callee *wamp.Session, msg *wamp.Register, match, i
 
 		// Found an existing registration that has an invocation strategy that
 		// only allows a single callee on the given registration.
-		if reg.policy == "" || reg.policy == wamp.InvokeSingle {
+		sharable := false
+		switch reg.policy {
+		case wamp.InvokeFirst, wamp.InvokeLast, wamp.InvokeRoundRobin, wamp.InvokeRandom:
+			// A session can be a callee of a shared registration only once.
+			sharable = !slices.Contains(reg.callees, callee)
+		}
+		if !sharable {
 			d.log.Println("REGISTER for already registered procedure",
 				msg.Procedure, "from callee", callee)
 			d.trySend(callee, &wamp.Error{
